@@ -410,6 +410,15 @@ func (ex *Exec) callSpec(fr *Frame, st *State, c *FuncContract, args []*Value, r
 			ex.oblige(st, "nil", what+":receiver", tb.Ne(args[0].C[0], ex.refLit(0)), site, "method call on nil receiver")
 		}
 	}
+	if c.Extern && strings.Contains(c.Name, ".(*") && len(args) > 0 && site != nil {
+		// a standard-library method with a pointer receiver, called on a pointer of ours: the
+		// library dereferences it (log.(*Logger).Printf, bufio.(*Reader).ReadByte, ...)
+		if _, isPtr := args[0].T.Underlying().(*types.Pointer); isPtr && (args[0].P == nil || (args[0].P.Local == nil && len(args[0].P.Path) == 0)) {
+			if _, isCall := site.(ssa.CallInstruction); isCall {
+				ex.oblige(st, "nil", what+":receiver", tb.Ne(args[0].C[0], ex.refLit(0)), site, "library method called on a nil pointer receiver")
+			}
+		}
+	}
 	for _, r := range c.Requires {
 		cond := ex.evalSpecBool(env, r.Expr)
 		ex.obligeSpec(st, "pre", what+":"+r.Label, cond, r, site)
